@@ -1,6 +1,7 @@
 package cli
 
 import (
+	"bytes"
 	"fmt"
 	"sort"
 	"strings"
@@ -82,6 +83,9 @@ func (g *G) decorate(p string) string {
 		}
 		return p + "/."
 	case 0:
+		if g.Bool("throughGoit") && g.E.Cur.HasGoit {
+			return ".goit/../" + p // a detour through the metadata directory names the same path
+		}
 		return "./" + p
 	case 1:
 		if i := strings.Index(p, "/"); i > 0 {
@@ -166,6 +170,17 @@ var ops = []opGen{
 	{"file-at-unstaged-dir", func(g *G) bool { return len(unstagedGoneDirs(g)) > 0 }, func(g *G) Step {
 		// the reverse: a directory whose tracked files were all removed comes back as a regular file of the same name
 		return Step{Op: "write", Path: g.Pick(unstagedGoneDirs(g), "unstagedGoneDir"), Data: g.contentFor()}
+	}},
+	{"commit-repeat-message", func(g *G) bool { return len(g.E.H.Order) > 0 }, func(g *G) Step {
+		// the same message as an earlier commit: after `reset --soft` to its parent (or on a branch made from it) the new
+		// commit can be byte-identical to one that is already stored, if it is made within the same second
+		id := g.Pick(g.E.H.Order, "earlierCommit")
+		return goit("commit", "-m", strings.TrimSuffix(g.E.H.Commits[id].Message, "\n"))
+	}},
+	{"write-big-twin", always, func(g *G) Step {
+		// contents above 1 MiB, the SAME bytes under several paths (one blob checked out more than once by one command)
+		data := bytes.Repeat([]byte("big twin content 0123456789abcdef\n"), 36000)
+		return Step{Op: "write", Path: g.NewPath(), Data: data}
 	}},
 	{"write-temp-sibling", hasTracked, func(g *G) Step {
 		// an UNTRACKED file whose name is what a tool would choose for a temporary or backup copy of a tracked file
@@ -415,6 +430,10 @@ func genReset(g *G) Step {
 		pos = pos % 10
 	}
 	args := append([]string{"reset"}, resetMode(g)...)
+	if g.Chance(12, "zeroPadded") {
+		// the argument pattern admits leading zeros; the number is decimal all the same (08, 010)
+		return goit(append(args, fmt.Sprintf("HEAD@{%s%d}", g.Pick([]string{"0", "00"}, "pad"), pos))...)
+	}
 	return goit(append(args, fmt.Sprintf("HEAD@{%d}", pos))...)
 }
 
@@ -467,6 +486,9 @@ func prelude(g *G) []Step {
 	name, email := "Test User", "test@example.com"
 	if g.Chance(40, "drawnIdentity") {
 		name, email = g.UserName(), g.Email()
+		if g.Chance(8, "nameHoldsEmail") {
+			name = g.Pick([]string{email, "Al Ice (" + email + ")", email + " jr"}, "nameWithEmail")
+		}
 	}
 	st := []Step{goit("init")}
 	switch g.Int(0, 3, "identMode") {
